@@ -8,6 +8,7 @@
   SHAL is a known finding (V = old sign bit): see `SHAL_*_partial` and `SHAL_B_finding`.
 -/
 import H8.Props.Common
+set_option linter.unusedSimpArgs false
 namespace H8.Props.C03
 open H8 H8.Lemmas H8.Props
 
@@ -176,5 +177,80 @@ theorem SHAL_v_guard8 (d : BitVec 8) (ccr : BitVec 8) :
 theorem SHAL_B_finding : ∃ (d : BitVec 8) (ccr : BitVec 8),
     (let (_, n, z, v, c) := shiftK .shal d ccr; shiftCcr ccr n z v c) ≠ (Spec.alu1K .shal d ccr).2 :=
   ⟨0x55, 0x00, by decide⟩
+
+/-! ### logic: NOT, AND / OR / XOR (byte and word register forms, byte immediates): result, N, Z, V := 0, C and H
+     untouched, nothing else changes -/
+
+theorem NOT_B (op : BitVec 16) (st st' : Cpu) (c : BitVec 8) (i : Spec.Instr)
+    (hp : Spec.Form.pat .NOT_B op 0 0 0 0 = true)
+    (hi : Spec.instrOf .NOT_B op 0 0 0 0 = some i) (h : unary .B notProc op st = .ok c st') :
+    st' = { st with regs := (specRegCcr i st).1, ccr := (specRegCcr i st).2 } := by
+  unary_handler Spec.instrOf_NOT_B Spec.pat_NOT_B
+
+theorem NOT_W (op : BitVec 16) (st st' : Cpu) (c : BitVec 8) (i : Spec.Instr)
+    (hp : Spec.Form.pat .NOT_W op 0 0 0 0 = true)
+    (hi : Spec.instrOf .NOT_W op 0 0 0 0 = some i) (h : unary .W notProc op st = .ok c st') :
+    st' = { st with regs := (specRegCcr i st).1, ccr := (specRegCcr i st).2 } := by
+  unary_handler Spec.instrOf_NOT_W Spec.pat_NOT_W
+
+theorem NOT_L (op : BitVec 16) (st st' : Cpu) (c : BitVec 8) (i : Spec.Instr)
+    (hp : Spec.Form.pat .NOT_L op 0 0 0 0 = true)
+    (hi : Spec.instrOf .NOT_L op 0 0 0 0 = some i) (h : unary .L notProc op st = .ok c st') :
+    st' = { st with regs := (specRegCcr i st).1, ccr := (specRegCcr i st).2 } := by
+  unary_handler Spec.instrOf_NOT_L Spec.pat_NOT_L
+
+theorem AND_B_RR (op : BitVec 16) (st st' : Cpu) (c : BitVec 8) (i : Spec.Instr)
+    (hp : Spec.Form.pat .AND_B_RR op 0 0 0 0 = true)
+    (hi : Spec.instrOf .AND_B_RR op 0 0 0 0 = some i) (h : logicRn .and .B op 1 st = .ok c st') :
+    st' = { st with regs := (specRegCcr i st).1, ccr := (specRegCcr i st).2 } := by
+  logic_handler Spec.instrOf_AND_B_RR Spec.pat_AND_B_RR
+
+theorem AND_W_RR (op : BitVec 16) (st st' : Cpu) (c : BitVec 8) (i : Spec.Instr)
+    (hp : Spec.Form.pat .AND_W_RR op 0 0 0 0 = true)
+    (hi : Spec.instrOf .AND_W_RR op 0 0 0 0 = some i) (h : logicRn .and .W op 1 st = .ok c st') :
+    st' = { st with regs := (specRegCcr i st).1, ccr := (specRegCcr i st).2 } := by
+  logic_handler Spec.instrOf_AND_W_RR Spec.pat_AND_W_RR
+
+theorem AND_B_IMM (op : BitVec 16) (st st' : Cpu) (c : BitVec 8) (i : Spec.Instr)
+    (hp : Spec.Form.pat .AND_B_IMM op 0 0 0 0 = true)
+    (hi : Spec.instrOf .AND_B_IMM op 0 0 0 0 = some i) (h : logicBImm .and op st = .ok c st') :
+    st' = { st with regs := (specRegCcr i st).1, ccr := (specRegCcr i st).2 } := by
+  logic_handler Spec.instrOf_AND_B_IMM Spec.pat_AND_B_IMM
+
+theorem OR_B_RR (op : BitVec 16) (st st' : Cpu) (c : BitVec 8) (i : Spec.Instr)
+    (hp : Spec.Form.pat .OR_B_RR op 0 0 0 0 = true)
+    (hi : Spec.instrOf .OR_B_RR op 0 0 0 0 = some i) (h : logicRn .or .B op 1 st = .ok c st') :
+    st' = { st with regs := (specRegCcr i st).1, ccr := (specRegCcr i st).2 } := by
+  logic_handler Spec.instrOf_OR_B_RR Spec.pat_OR_B_RR
+
+theorem OR_W_RR (op : BitVec 16) (st st' : Cpu) (c : BitVec 8) (i : Spec.Instr)
+    (hp : Spec.Form.pat .OR_W_RR op 0 0 0 0 = true)
+    (hi : Spec.instrOf .OR_W_RR op 0 0 0 0 = some i) (h : logicRn .or .W op 1 st = .ok c st') :
+    st' = { st with regs := (specRegCcr i st).1, ccr := (specRegCcr i st).2 } := by
+  logic_handler Spec.instrOf_OR_W_RR Spec.pat_OR_W_RR
+
+theorem OR_B_IMM (op : BitVec 16) (st st' : Cpu) (c : BitVec 8) (i : Spec.Instr)
+    (hp : Spec.Form.pat .OR_B_IMM op 0 0 0 0 = true)
+    (hi : Spec.instrOf .OR_B_IMM op 0 0 0 0 = some i) (h : logicBImm .or op st = .ok c st') :
+    st' = { st with regs := (specRegCcr i st).1, ccr := (specRegCcr i st).2 } := by
+  logic_handler Spec.instrOf_OR_B_IMM Spec.pat_OR_B_IMM
+
+theorem XOR_B_RR (op : BitVec 16) (st st' : Cpu) (c : BitVec 8) (i : Spec.Instr)
+    (hp : Spec.Form.pat .XOR_B_RR op 0 0 0 0 = true)
+    (hi : Spec.instrOf .XOR_B_RR op 0 0 0 0 = some i) (h : logicRn .xor .B op 1 st = .ok c st') :
+    st' = { st with regs := (specRegCcr i st).1, ccr := (specRegCcr i st).2 } := by
+  logic_handler Spec.instrOf_XOR_B_RR Spec.pat_XOR_B_RR
+
+theorem XOR_W_RR (op : BitVec 16) (st st' : Cpu) (c : BitVec 8) (i : Spec.Instr)
+    (hp : Spec.Form.pat .XOR_W_RR op 0 0 0 0 = true)
+    (hi : Spec.instrOf .XOR_W_RR op 0 0 0 0 = some i) (h : logicRn .xor .W op 1 st = .ok c st') :
+    st' = { st with regs := (specRegCcr i st).1, ccr := (specRegCcr i st).2 } := by
+  logic_handler Spec.instrOf_XOR_W_RR Spec.pat_XOR_W_RR
+
+theorem XOR_B_IMM (op : BitVec 16) (st st' : Cpu) (c : BitVec 8) (i : Spec.Instr)
+    (hp : Spec.Form.pat .XOR_B_IMM op 0 0 0 0 = true)
+    (hi : Spec.instrOf .XOR_B_IMM op 0 0 0 0 = some i) (h : logicBImm .xor op st = .ok c st') :
+    st' = { st with regs := (specRegCcr i st).1, ccr := (specRegCcr i st).2 } := by
+  logic_handler Spec.instrOf_XOR_B_IMM Spec.pat_XOR_B_IMM
 
 end H8.Props.C03
